@@ -29,6 +29,8 @@ def exhaustive(tier):
 
 def run_case(case, rec):
     d = Driver(case)
+    sched = common.observe_schedule(case)
+    rec.classify('queries after: ' + sched)
     state = {'stop': False}
 
     def after(i, r):
@@ -39,7 +41,7 @@ def run_case(case, rec):
         if not ok:
             state['stop'] = True
             return
-        if r['op'][0] in ADD_OPS:
+        if r['op'][0] in ADD_OPS and common.due(sched, i, len(case['ops']) - 1):
             common.check_presence(rec, 'C01', d.G, d.M, d.nodes, ctx='after op %d %r' % (i, r['op']))
 
     for i, op in enumerate(case['ops']):
